@@ -69,7 +69,7 @@ def all_harnesses():
                                   f"crate::c09::au_decode_data(4, {cap_in}, {cap_out}, {rs_sched(s)}, {str(gone).lower()})", unwind=12,
                                   unit="AuDecode::work verdict (data state)", timeout=900,
                                   shape={"block": "AuDecode(data)", "cap_in": cap_in, "cap_out": cap_out, "situation": desc, "upstream_gone": gone},
-                                  core=(ci == 0 and si in (0, 2, 4) and not gone)))
+                                  core=False))
     for cap in (1, 2):
         for ln in (1, 2, 3):
             for inf in (False, True):
@@ -81,6 +81,12 @@ def all_harnesses():
         for di, dr in enumerate(([0, 0, 0], [cap, 0, 1, cap])):
             hs.append(Harness(f"c09_csrc_c{cap}_d{di}", f"crate::c09::constant_source({cap}, {rl(dr)})", unwind=12, unit="ConstantSource::work verdict",
                               shape={"block": "ConstantSource", "cap": cap, "drains": dr}, core=(cap == 2), timeout=900))
+    for cap in (2, 3):
+        for (l1, l2) in ((cap, 1), (1, cap), (cap + 1, 1), (2, 2)):
+            for di, dr in enumerate(([0, 0, 0], [0, 1, 0, cap])):
+                hs.append(Harness(f"c09_v2s_c{cap}_{l1}_{l2}_d{di}", f"crate::c09::vec_to_stream({l1}, {l2}, {cap}, {rl(dr)})", unwind=28,
+                                  unit="VecToStream::work verdict", shape={"block": "VecToStream", "cap": cap, "l1": l1, "l2": l2, "drains": dr},
+                                  core=(cap == 2 and di == 0 and (l1, l2) in ((2, 1), (1, 2))), timeout=900))
     for kind, nm in ((0, "NullSink"), (1, "VectorSink")):
         for cap in (2,):
             for fi, fd in enumerate(([0], [1, 0], [2, 2, 2], [2, 2, 1, 0])):
